@@ -71,13 +71,20 @@ type Site struct {
 type Summary struct {
 	Fn        *ssa.Function
 	NParams   int
-	NRoots    int         // params + freevars + 1 (globals)
-	Writes    [][]Site    // per root: sites that may write through it
-	RetAlias  []Bits      // per result index: roots the result may alias
-	RetFresh  []bool      // per result: only fresh allocations / constants flow to it
-	Undecided []Site      // calls with unknown effects on tainted arguments
-	Forbidden []Site      // go statements, channel ops, map range, unsafe, forbidden packages
+	NRoots    int      // params + freevars + 1 (globals)
+	Writes    [][]Site // per root: sites that may write through it
+	RetAlias  []Bits   // per result index: roots the result may alias
+	RetFresh  []bool   // per result: only fresh allocations / constants flow to it
+	Undecided []Site   // calls with unknown effects on tainted arguments
+	Forbidden []Site   // go statements, channel ops, map range, unsafe, forbidden packages
+	// Retain[k] = roots j != k such that a pointer-carrying value derived from root j may be stored
+	// into memory reachable through root k (the callee makes k's memory refer to j's memory).
+	Retain      []Bits
+	RetainSites map[[2]int][]Site
 }
+
+// Retains reports whether memory of root k may end up referring to memory of root j.
+func (s *Summary) Retains(k, j int) bool { return k < len(s.Retain) && s.Retain[k].Has(j) }
 
 func (s *Summary) GlobalRoot() int { return s.NRoots - 1 }
 
@@ -180,7 +187,8 @@ func newSummary(fn *ssa.Function) *Summary {
 	np := len(fn.Params)
 	nr := np + len(fn.FreeVars) + 1
 	nres := fn.Signature.Results().Len()
-	s := &Summary{Fn: fn, NParams: np, NRoots: nr, Writes: make([][]Site, nr), RetAlias: make([]bits, nres), RetFresh: make([]bool, nres)}
+	s := &Summary{Fn: fn, NParams: np, NRoots: nr, Writes: make([][]Site, nr), RetAlias: make([]bits, nres), RetFresh: make([]bool, nres),
+		Retain: make([]Bits, nr), RetainSites: map[[2]int][]Site{}}
 	for i := range s.RetFresh {
 		s.RetFresh[i] = true
 	}
@@ -193,6 +201,11 @@ func sameSummary(a, b *Summary) bool {
 	}
 	for i := range a.Writes {
 		if len(a.Writes[i]) != len(b.Writes[i]) {
+			return false
+		}
+	}
+	for i := range a.Retain {
+		if fmt.Sprint(a.Retain[i]) != fmt.Sprint(b.Retain[i]) {
 			return false
 		}
 	}
@@ -515,6 +528,13 @@ func (st *fnState) flowCall(v *ssa.Call, c *ssa.CallCommon) bool {
 			continue
 		}
 		local++
+		for k := 0; k < s.NParams && k < len(args); k++ {
+			for j := 0; j < s.NParams && j < len(args); j++ {
+				if s.Retains(k, j) && st.storeInto(st.t(args[k]), st.contentOrSelf(args[j])) {
+					ch = true
+				}
+			}
+		}
 		for ri := range s.RetAlias {
 			for k := 0; k < s.NRoots; k++ {
 				if !s.RetAlias[ri].has(k) {
@@ -661,6 +681,49 @@ func writerExternal(name string) bool {
 	return false
 }
 
+// reach: the roots whose memory a value with taint b may point into, directly or through
+// what was stored into the local allocations it points to (transitively).
+func (st *fnState) reach(b bits) bits {
+	var out bits
+	seen := map[int]bool{}
+	var walk func(b bits)
+	walk = func(b bits) {
+		for r := 0; r < st.sum.NRoots; r++ {
+			if b.has(r) {
+				out.set(r)
+			}
+		}
+		for i := 0; i < st.nAlloc; i++ {
+			if b.has(st.sum.NRoots+i) && !seen[i] {
+				seen[i] = true
+				walk(st.content[i])
+			}
+		}
+	}
+	walk(b)
+	return out
+}
+
+// retain records that memory of the roots in dst may come to refer to memory of the roots in src.
+func (st *fnState) retain(dst, src bits, site Site) {
+	g := st.sum.GlobalRoot()
+	for k := 0; k < st.sum.NRoots; k++ {
+		if !dst.has(k) {
+			continue
+		}
+		for j := 0; j < st.sum.NRoots; j++ {
+			if j == k || !src.has(j) || j == g {
+				continue
+			}
+			st.sum.Retain[k].set(j)
+			key := [2]int{k, j}
+			if len(st.sum.RetainSites[key]) < 8 {
+				st.sum.RetainSites[key] = append(st.sum.RetainSites[key], site)
+			}
+		}
+	}
+}
+
 func (st *fnState) write(roots bits, site Site) {
 	for r := 0; r < st.sum.NRoots; r++ {
 		if roots.has(r) {
@@ -696,6 +759,9 @@ func (st *fnState) effects(in ssa.Instruction) {
 			s := site("store")
 			s.Path = fieldPath(v.Addr)
 			st.write(r, s)
+			if hasPointers(v.Val.Type()) {
+				st.retain(rootsOnly(r, st.sum.NRoots), st.reach(st.t(v.Val)), s)
+			}
 		}
 	case *ssa.MapUpdate:
 		if r := st.t(v.Map); !rootsOnly(r, st.sum.NRoots).empty() {
@@ -825,7 +891,34 @@ func (st *fnState) effectsCall(in ssa.CallInstruction, c *ssa.CallCommon) {
 				st.write(r, w)
 			}
 		}
-		st.sum.Undecided = append(st.sum.Undecided, nil...)
+		argT := func(k int) bits {
+			switch {
+			case k < s.NParams && k < len(args):
+				return st.t(args[k])
+			case k == s.GlobalRoot():
+				var r bits
+				r.set(st.sum.GlobalRoot())
+				return r
+			}
+			return st.t(c.Value)
+		}
+		for k := 0; k < s.NRoots; k++ {
+			for j := 0; j < s.NRoots; j++ {
+				if !s.Retains(k, j) {
+					continue
+				}
+				w := site(fmt.Sprintf("call of %s, which stores a reference to its root %d into its root %d", f.String(), j, k))
+				w.Callee = f
+				if ss := s.RetainSites[[2]int{k, j}]; len(ss) > 0 {
+					w.Path = ss[0].Path
+					if w.Path == "" && ss[0].Callee != nil {
+						w.Path = "via " + ss[0].Callee.Name()
+					}
+				}
+				// the reach of the destination too: a local holder (packetBuffer) passed by pointer stands for what it points to
+				st.retain(rootsOnly(argT(k), st.sum.NRoots), st.reach(argT(j)), w)
+			}
+		}
 	}
 	if unknown {
 		st.externalEffects(in, c, calleeName(nil, c), args)
@@ -867,6 +960,15 @@ func (st *fnState) externalEffects(in ssa.CallInstruction, c *ssa.CallCommon, na
 		}
 		return
 	case strings.HasPrefix(name, "(reflect.Value).Set") || name == "(reflect.Value).Call":
+		if len(args) >= 2 && (name == "(reflect.Value).Set" || name == "(reflect.Value).SetBytes" || name == "(reflect.Value).SetPointer" || name == "(reflect.Value).SetMapIndex") {
+			var src bits
+			for _, x := range args[1:] {
+				if hasPointers(x.Type()) {
+					src.or(st.reach(st.t(x)))
+				}
+			}
+			st.retain(rootsOnly(st.t(args[0]), st.sum.NRoots), src, site(name+": the value set shares memory with the argument"))
+		}
 		if len(args) >= 1 {
 			if r := st.t(args[0]); !rootsOnly(r, st.sum.NRoots).empty() {
 				st.write(r, site(name+" on a value derived from shared memory"))
